@@ -457,9 +457,15 @@ func NewPointer(elemType Type) *PointerType {
 
 // Equal reports whether t and u are of equal type.
 func (t *PointerType) Equal(u Type) bool {
-	// HACK: to prevent infinite loops (e.g. struct foo containing field of type
-	// pointer to foo).
-	return t.String() == u.String()
+	if u, ok := u.(*PointerType); ok {
+		// HACK: to prevent infinite loops (e.g. struct foo containing field of
+		// type pointer to foo).
+		//
+		// Note: compare the definitions of the pointer types, not their type
+		// names; pointer types are identified by structure.
+		return t.LLString() == u.LLString()
+	}
+	return false
 }
 
 // String returns the string representation of the pointer type.
